@@ -170,14 +170,22 @@ def predraise_model(m, r, x):
 def src_values(node):
     """The source examples of a leaf node, as (keys or None, values)."""
     sid = node['id']
+    na = node.get('none_at')
     if node['op'] == 'list':
         n = node['n']
         if node.get('dup'):
-            return None, [('s', sid, i // 2) for i in range(n)]
-        return None, [('s', sid, i) for i in range(n)]
+            vals = [('s', sid, i // 2) for i in range(n)]
+        else:
+            vals = [('s', sid, i) for i in range(n)]
+        if na is not None and na < n:
+            vals[na] = None
+        return None, vals
     if node['op'] == 'dict':
         keys = list(node['keys'])
-        return keys, [('s', sid, k) for k in keys]
+        vals = [('s', sid, k) for k in keys]
+        if na is not None and na < len(keys):
+            vals[na] = None
+        return keys, vals
     raise ValueError(node['op'])
 
 
